@@ -1209,7 +1209,8 @@ def neutron_composite_sld(materials, wavelength=ABSORPTION_WAVELENGTH):
         # If nothing to sum, return values for a vacuum.  This might be because
         # the material has no atoms or it might be because the density is zero.
         if molar_mass*density == 0:
-            return 0, 0, 0
+            zero = 0*wavelength # same shape as the wavelength
+            return zero, zero, zero
 
         # Compute number density (1/A^3)
         cell_volume = (molar_mass/density)/avogadro_number*1e24
